@@ -234,13 +234,45 @@ fn main() {
         lits();
         return;
     }
+    if args[1] == "findbuf" {
+        // find_buf with arbitrary byte needles (may contain NUL); haystack and needle against guard pages
+        unsafe {
+            libc::signal(libc::SIGSEGV, on_segv as usize);
+            libc::signal(libc::SIGBUS, on_segv as usize);
+            libc::signal(libc::SIGABRT, on_segv as usize);
+            libc::signal(libc::SIGILL, on_segv as usize);
+        }
+        let skip: usize = args.get(3).map_or(0, |s| s.parse().unwrap());
+        let f = std::io::BufReader::new(std::fs::File::open(&args[2]).unwrap());
+        let (sa, sb) = (Slot::new(), Slot::new());
+        let mut out = Out::new();
+        for (i, line) in f.lines().enumerate() {
+            if i < skip {
+                continue;
+            }
+            let v: Value = serde_json::from_str(&line.unwrap()).unwrap();
+            let (a, b) = (bytes_of(&v["a"]), bytes_of(&v["b"]));
+            let mut ra = a.clone();
+            ra.push(0);
+            let ua = unsafe { UnixStr::from_bytes_unchecked(sa.put(&ra)) };
+            let nb = sb.put(&b);
+            set_cur(i, "find_buf");
+            out.ev(&json!({"i": i, "find_buf": res(guarded(|| ua.find_buf(nb)), opt_idx)}));
+            out.flush();
+        }
+        return;
+    }
     if args[1] == "dirent" {
         dirent(&args[2]);
         return;
     }
     unsafe {
+        // a fault behind an argument, an abort (non-unwinding panic of an unsafe precondition
+        // check) or an illegal instruction inside an operation is data: reported as a crash
         libc::signal(libc::SIGSEGV, on_segv as usize);
         libc::signal(libc::SIGBUS, on_segv as usize);
+        libc::signal(libc::SIGABRT, on_segv as usize);
+        libc::signal(libc::SIGILL, on_segv as usize);
     }
     let skip: usize = args.get(3).map_or(0, |s| s.parse().unwrap());
     #[allow(static_mut_refs)]
